@@ -49,15 +49,32 @@ theorem C07_frame (f : Forest) (t : Nat) (g : Meta → Items → Items) (b : Tre
   simp only [Forest.mapAt, List.mem_map]
   exact ⟨b, hb, updateAt_noop t g b hdis⟩
 
-/-- non-interference for the notification-free in-place mutators of a list or dict, as a whole
-step: every root that does not contain the target is still a root, unchanged. -/
+/-- non-interference for the in-place mutators of a list or dict that offer no value, as a whole
+step under `notify_on_change(False)`: every root that does not contain the target is still a
+root, unchanged (with notification on, add `C07_notify_frame`). -/
 def Quiet : Op → Bool
   | .lReverse _ | .lSort _ _ _ | .lClear _ | .dClear _ | .dPopItem _ => true
   | _ => false
 
-theorem C07_independent_partial (cfg : Cfg) (f : Forest) (n : Bool) (op : Op) (t : Nat)
+/-- the change notification walks the believed ancestors of its targets; a tree none of whose
+nodes is among them is left as it is. -/
+theorem C07_notify_frame (f : Forest) (targets : List Nat) (b : Tree) (hb : b ∈ f.roots)
+    (h : ∀ c ∈ targets.flatMap (chainFrom f (f.ids.length + 1)), c ∉ b.ids) :
+    b ∈ (notify f targets).roots := by
+  unfold notify
+  have h' : ∀ c ∈ (targets.flatMap (chainFrom f (f.ids.length + 1))).eraseDups, c ∉ b.ids :=
+    fun c hc => h c (List.mem_eraseDups.mp hc)
+  generalize (targets.flatMap (chainFrom f (f.ids.length + 1))).eraseDups = chain at h'
+  clear h
+  induction chain generalizing f with
+  | nil => exact hb
+  | cons c cs ih =>
+    simp only [List.foldl_cons]
+    exact ih (onChangeAt f c) (C07_frame f c _ b hb (h' c (by simp))) (fun x hx => h' x (by simp [hx]))
+
+theorem C07_independent_partial (cfg : Cfg) (f : Forest) (op : Op) (t : Nat)
     (hq : Quiet op = true) (ht : op.target? = some t) (b : Tree) (hb : b ∈ f.roots) (hdis : t ∉ b.ids) :
-    b ∈ (step cfg f n op).forest.roots := by
+    b ∈ (step cfg f false op).forest.roots := by
   cases op <;> simp [Quiet] at hq <;> simp only [Op.target?, Option.some.injEq] at ht <;> subst ht <;>
     simp only [step]
   all_goals
@@ -65,11 +82,14 @@ theorem C07_independent_partial (cfg : Cfg) (f : Forest) (n : Bool) (op : Op) (t
     · split
       · exact hb
       · first
-        | exact C07_frame f _ _ b hb hdis
-        | (unfold dropAll; exact addRoots_keeps _ _ b (C07_frame f _ _ b hb hdis))
+        | (unfold permuteAndNotify permute; simp only [Bool.and_false, Bool.false_and, Bool.false_eq_true, if_false]
+           exact C07_frame f _ _ b hb hdis)
+        | (unfold clearAndNotify dropAll; simp only [Bool.and_false, Bool.false_and, Bool.false_eq_true, if_false]
+           exact addRoots_keeps _ _ b (C07_frame f _ _ b hb hdis))
         | (split
            · exact hb
-           · exact addRoot_keeps _ _ b (C07_frame f _ _ b hb hdis))
+           · simp only [Bool.and_false, Bool.false_eq_true, if_false]
+             exact addRoot_keeps _ _ b (C07_frame f _ _ b hb hdis))
     · exact hb
 
 /-! ## Flags (F17) -/
